@@ -1,4 +1,5 @@
 import AndaVerif.Gen.Bm25Order
+import AndaVerif.Model.Bm25
 import Mathlib.Analysis.SpecialFunctions.Log.Basic
 import Mathlib.Tactic.Linarith
 import Mathlib.Tactic.Positivity
@@ -140,6 +141,84 @@ theorem sum_nonneg_of_all (l : List ℝ) (h : ∀ x ∈ l, 0 ≤ x) : 0 ≤ l.su
     have := h x (List.mem_cons_self)
     have := ih (fun y hy => h y (List.mem_cons_of_mem _ hy))
     linarith
+
+/-! ### the score of the model's `scoreInputs` in exact arithmetic (ℚ)
+
+`idf` is a logarithm and has no rational value: it enters as an arbitrary non-negative weight per query
+token (`idf_nonneg` shows the real one is). Everything else of the formula is rational. -/
+
+/-- `(tf · (k1 + 1)) / (tf + k1 · (1 − b + b · |d| / avgdl))` over ℚ -/
+def tfcQ (k1 b tf dl avg : ℚ) : ℚ := (tf * (k1 + 1)) / (tf + k1 * (1 - b + b * dl / avg))
+
+/-- `avg_doc_tokens().max(1.0)` (`0` documents: `0.0.max(1.0)`) -/
+def avgQ (n total : Nat) : ℚ := max ((total : ℚ) / (n : ℚ)) 1
+
+theorem avgQ_ge_one (n total : Nat) : 1 ≤ avgQ n total := le_max_right _ _
+
+theorem tfcQ_nonneg {k1 b tf dl avg : ℚ} (hk : 0 ≤ k1) (hb0 : 0 ≤ b) (hb1 : b ≤ 1) (htf : 0 ≤ tf)
+    (hdl : 0 ≤ dl) (havg : 1 ≤ avg) : 0 ≤ tfcQ k1 b tf dl avg := by
+  unfold tfcQ
+  have h1 : 0 ≤ b * dl / avg := div_nonneg (mul_nonneg hb0 hdl) (by linarith)
+  have h2 : 0 ≤ k1 * (1 - b + b * dl / avg) := mul_nonneg hk (by linarith)
+  exact div_nonneg (mul_nonneg htf (by linarith)) (by linarith)
+
+theorem tfcQ_le {k1 b tf dl avg : ℚ} (hk : 0 ≤ k1) (hb0 : 0 ≤ b) (hb1 : b ≤ 1) (htf : 0 ≤ tf)
+    (hdl : 0 ≤ dl) (havg : 1 ≤ avg) : tfcQ k1 b tf dl avg ≤ k1 + 1 := by
+  unfold tfcQ
+  have h1 : 0 ≤ b * dl / avg := div_nonneg (mul_nonneg hb0 hdl) (by linarith)
+  have h2 : 0 ≤ k1 * (1 - b + b * dl / avg) := mul_nonneg hk (by linarith)
+  by_cases hd : tf + k1 * (1 - b + b * dl / avg) = 0
+  · rw [hd, div_zero]; linarith
+  · have hpos : 0 < tf + k1 * (1 - b + b * dl / avg) := lt_of_le_of_ne (by linarith) (Ne.symm hd)
+    rw [div_le_iff₀ hpos]
+    nlinarith [mul_nonneg (by linarith : (0:ℚ) ≤ k1 + 1) h2]
+
+/-- the larger the term frequency the larger the contribution (same document length) -/
+theorem tfcQ_mono_tf {k1 b tf tf' dl avg : ℚ} (hk : 0 ≤ k1) (hb0 : 0 ≤ b) (hb1 : b ≤ 1) (htf : 0 < tf)
+    (hle : tf ≤ tf') (hdl : 0 ≤ dl) (havg : 1 ≤ avg) : tfcQ k1 b tf dl avg ≤ tfcQ k1 b tf' dl avg := by
+  unfold tfcQ
+  have h1 : 0 ≤ b * dl / avg := div_nonneg (mul_nonneg hb0 hdl) (by linarith)
+  have h2 : 0 ≤ k1 * (1 - b + b * dl / avg) := mul_nonneg hk (by linarith)
+  have hd : 0 < tf + k1 * (1 - b + b * dl / avg) := by linarith
+  have hd' : 0 < tf' + k1 * (1 - b + b * dl / avg) := by linarith
+  rw [div_le_div_iff₀ hd hd']
+  nlinarith [mul_nonneg (by linarith : (0:ℚ) ≤ k1 + 1) h2, mul_nonneg (sub_nonneg.2 hle) (mul_nonneg (by linarith : (0:ℚ) ≤ k1 + 1) h2)]
+
+open Bm25 in
+/-- contribution of one query token (with weight `w`) to document `i` -/
+def tokenScoreQ (w k1 b avg : ℚ) (info : List (Nat × Nat × Nat)) (i : Nat) : ℚ :=
+  ((info.filter (fun x => x.1 == i)).map (fun x => w * tfcQ k1 b (x.2.1 : ℚ) (x.2.2 : ℚ) avg)).sum
+
+/-- the score `score_term` accumulates for document `i`, read off the model's `scoreInputs`
+(`w t` stands for `idf` of token `t`) -/
+def docScoreQ (w : Nat → ℚ) (k1 b : ℚ) (inp : Nat × Nat × List (Nat × List (Nat × Nat × Nat))) (i : Nat) : ℚ :=
+  (inp.2.2.map (fun p => tokenScoreQ (w p.1) k1 b (avgQ inp.1 inp.2.1) p.2 i)).sum
+
+theorem tokenScoreQ_nonneg {w k1 b avg : ℚ} (hw : 0 ≤ w) (hk : 0 ≤ k1) (hb0 : 0 ≤ b) (hb1 : b ≤ 1)
+    (havg : 1 ≤ avg) (info : List (Nat × Nat × Nat)) (i : Nat) : 0 ≤ tokenScoreQ w k1 b avg info i := by
+  unfold tokenScoreQ
+  apply List.sum_nonneg
+  intro x hx
+  obtain ⟨y, _, rfl⟩ := List.mem_map.1 hx
+  exact mul_nonneg hw (tfcQ_nonneg hk hb0 hb1 (by positivity) (by positivity) havg)
+
+/-- **score ≥ 0** in exact arithmetic, for every state, query, document, non-negative idf weights and
+sanitised parameters -/
+theorem docScoreQ_nonneg {w : Nat → ℚ} {k1 b : ℚ} (hw : ∀ t, 0 ≤ w t) (hk : 0 ≤ k1) (hb0 : 0 ≤ b) (hb1 : b ≤ 1)
+    (inp : Nat × Nat × List (Nat × List (Nat × Nat × Nat))) (i : Nat) : 0 ≤ docScoreQ w k1 b inp i := by
+  unfold docScoreQ
+  apply List.sum_nonneg
+  intro x hx
+  obtain ⟨p, _, rfl⟩ := List.mem_map.1 hx
+  exact tokenScoreQ_nonneg (hw p.1) hk hb0 hb1 (avgQ_ge_one _ _) p.2 i
+
+/-- **repeated queries agree** in exact arithmetic: the score does not depend on the order in which the
+query tokens are visited (the real code visits them in the order of a freshly seeded hash map) -/
+theorem docScoreQ_perm (w : Nat → ℚ) (k1 b : ℚ) (n total : Nat)
+    {l₁ l₂ : List (Nat × List (Nat × Nat × Nat))} (h : l₁.Perm l₂) (i : Nat) :
+    docScoreQ w k1 b (n, total, l₁) i = docScoreQ w k1 b (n, total, l₂) i := by
+  unfold docScoreQ
+  exact (h.map _).sum_eq
 
 end Bm25Score
 end AndaVerif
